@@ -578,6 +578,10 @@ func (in *instrumenter) rewriteFile(p *pkgInfo, f *ast.File, name string, write 
 								in.noteUnseamed(relFile, x.Pos(), "time."+x.Sel.Name+" (timers are not virtualised)")
 							}
 						}
+					} else if id.Name == "reflect" && x.Sel.Name == "Select" && isPkgIdent(id, "reflect") {
+						in.noteUnseamed(relFile, x.Pos(), "reflect.Select (reflective channel operations are not virtualised)")
+					} else if id.Name == "signal" && x.Sel.Name == "Notify" && isPkgIdent(id, "signal") {
+						in.noteUnseamed(relFile, x.Pos(), "signal.Notify (delivery from outside the simulation)")
 					} else if isPkgIdent(id, mhName) {
 						switch x.Sel.Name {
 						case "MakeSeed":
